@@ -102,7 +102,7 @@ SAugQuick(dummy) ==
   { Prog(("a" :> BaseA(cc)) @@ ("b" :> ModB(<<Aug(t1, p1)>>)) @@ ("c" :> ModC(<<Aug(t2, p2)>>))) :
       cc \in {"unset", "false"}, t1 \in Targets, p1 \in Payloads("b"), t2 \in ChainTargets, p2 \in ChainPayloads }
 MCOrder == <<"a", "b", "c", "as", "bs">>
-MCOrder2 == <<"a", "as", "b", "bs0", "bs", "c", "d", "dd", "ds", "u", "us", "w", "v">>
+MCOrder2 == <<"a", "as", "b", "bs0", "bs", "c", "d", "dd", "ds", "u", "us", "w", "v", "vs">>
 
 \* thorough: two augments in b (written in either order), one in c, one in b's submodule bs
 ModBS(augs) == Mod("b", ImpA, <<"bs">>, << Stmt("grouping", "bg", << Leaf("bgl") >>) >> \o augs)
@@ -229,14 +229,15 @@ Sites == {"top", "list", "input", "notif", "nested", "case", "cfgfalse"}
 ImpD == [x \in {"d"} |-> "d"]
 ImpU == [x \in {"u"} |-> "u"]
 UsesProg(k, def, s1, s2, mut) ==
-  LET ref == IF def \in {"d", "ds", "perfile"} THEN Uses("d", "g1") ELSE IF def = "dd" THEN Uses("dd", "g1") ELSE Uses("", "g1")
+  LET ref == IF def \in {"d", "ds", "perfile", "subimp"} THEN Uses("d", "g1") ELSE IF def = "dd" THEN Uses("dd", "g1") ELSE Uses("", "g1")
       \* def = "wrap": u's own g1 wraps d's grouping of the same name
       \* u has a g2 of its own: names inside g1 must not bind to it when g1 lives in d
       uOwn == << TddOf("u"), Stmt("identity", "local", <<>>), Stmt("grouping", "g2", << Leaf("u2") >>) >>
       uBody == (IF def = "u" THEN << G1(k) >> ELSE <<>>)
+               \o (IF def = "subimp" THEN << Stmt("grouping", "g1", << Leaf("decoy") >>) >> ELSE <<>>)
                \o (IF def = "wrap" THEN << Stmt("grouping", "g1", << Uses("d", "g1"), Leaf("wy") >>) >> ELSE <<>>) \o uOwn \o << UseSite(s1, ref) >> \o (IF s2 # s1 THEN << UseSite(s2, ref) >> ELSE <<>>)
       \* when g1 lives in module dd (prefix dd), module d (prefix d, imported first) holds a decoy of the same name
-      dBody == DefD \o (IF def \in {"d", "wrap", "perfile"} THEN << G1(k) >> ELSE <<>>)
+      dBody == DefD \o (IF def \in {"d", "wrap", "perfile", "subimp"} THEN << G1(k) >> ELSE <<>>)
                     \o (IF def = "dd" THEN << Stmt("grouping", "g1", << Leaf("decoy") >>) >> ELSE <<>>)
       target == SitePath(s1) \o << Q("u", "k1") >>
       wBody == CASE mut = "none" -> <<>>
@@ -252,11 +253,15 @@ UsesProg(k, def, s1, s2, mut) ==
                                          Stmt("deviation", SitePath(s2) \o << Q("u", "ll") >>, << Stmt("deviate", "add", << Stmt("default", "x2", <<>>) >>) >>) >>
                  [] mut = "llbounds" -> << Stmt("deviation", target \o << Q("u", "bl") >>,
                                                 << Stmt("deviate", "replace", << Stmt("min-elements", 2, <<>>), Stmt("max-elements", 4, <<>>) >>) >>) >>
-      u == Mod("u", IF def = "dd" THEN [x \in {"d", "dd"} |-> x] ELSE ImpD, IF def \in {"us", "perfile"} THEN <<"us">> ELSE <<>>, uBody)
+      u == Mod("u", IF def = "dd" THEN [x \in {"d", "dd"} |-> x] ELSE ImpD, IF def \in {"us", "perfile", "subimp"} THEN <<"us">> ELSE <<>>, uBody)
       d == Mod("d", NoImp, IF def = "ds" THEN <<"ds">> ELSE <<>>, dBody)
       w == Mod("w", ImpU, <<>>, wBody)
   IN Prog(("u" :> u) @@ ("d" :> d) @@ ("w" :> w)
           @@ (IF def = "us" THEN ("us" :> Sub("us", "u", ImpD, <<>>, << G1(k) >>)) ELSE << >>)
+          \* def = "subimp": the use is written in a submodule of u whose belongs-to prefix is "uu" and which imports module d
+          \* under the prefix "u" - the string module u uses for itself; u:g1 in that file is d's grouping, not u's own g1
+          @@ (IF def = "subimp" THEN ("us" :> [Sub("us", "u", [x \in {"u"} |-> "d"], <<>>,
+                                                   << Stmt("container", "s_sub", << Uses("u", "g1") >>) >>) EXCEPT !.pfx = "uu"]) ELSE << >>)
           \* def = "perfile": a prefix belongs to the file that declares it.  u says d:g1 and means module d; its submodule us
           \* calls its OWN module "d" (belongs-to u { prefix d; }) and has a grouping g1 of its own, which u's text does not mean
           @@ (IF def = "perfile" THEN ("us" :> [Sub("us", "u", NoImp, <<>>, << Stmt("grouping", "g1", << Leaf("decoy") >>) >>) EXCEPT !.pfx = "d"]) ELSE << >>)
@@ -268,7 +273,7 @@ MutOK(k, mut) == /\ mut \in {"inext", "mandatory"} => k = 6
                  /\ mut = "inaction" => k = 5
                  /\ mut = "maxelem" => k \in {1, 2}
 Muts == {"none", "augment", "notsupp", "config", "maxelem", "inaction", "inext", "llbounds", "mandatory", "lldefs"}
-Defs == {"d", "ds", "u", "dd", "wrap", "perfile"}
+Defs == {"d", "ds", "u", "dd", "wrap", "perfile", "subimp"}
 SUses(dummy) ==
   { UsesProg(k[1], def, s1, s2, k[2]) : k \in {x \in (1..8) \X Muts : MutOK(x[1], x[2])}, def \in Defs, s1 \in Sites, s2 \in Sites }
 SUsesQuick(dummy) ==
@@ -352,7 +357,18 @@ SDevTriples(dummy) ==
   { DevProg(<< Dev(t, << d1, d2, d3 >>) >>, <<>>, FALSE) : t \in {x \in DevTargets : x.p \in {<< Q("a","ln") >>, << Q("a","ld") >>}},
        d1 \in TripleDeviates, d2 \in TripleDeviates, d3 \in TripleDeviates }
 \* two deviations (same or different targets) in one module; two deviating modules with disjoint attributes
+\* a deviation written in a SUBMODULE of the deviating module: the prefixes of its target path are those of the submodule's
+\* own imports (here "a" is module a), whatever the including module binds the same prefix string to (here: module b)
+DevSubProg(t, d) ==
+  [mods |-> ("a" :> Mod("a", NoImp, <<>>, DevBase)) @@ ("b" :> ModDevB)
+            @@ ("v" :> Mod("v", [x \in {"a", "b"} |-> "b"], <<"vs">>, <<>>))
+            @@ ("vs" :> Sub("vs", "v", ImpA, <<>>, << Dev(t, << d >>) >>)),
+   ignoreNS |-> FALSE]
+SDevSub(dummy) ==
+  { DevSubProg(t, d) : t \in {x \in DevTargets : x.p \in {<< Q("a","ld") >>, << Q("a","co") >>, << Q("a","u"), Q("a","gl") >>}},
+                       d \in {Dv("replace", << S1("default", "w") >>), Dv("add", << Cfg("false") >>), Dv("not-supported", <<>>)} }
 SDev3(dummy) ==
+  SDevSub(0) \cup
   { DevProg(<< Dev(t1, << d1 >>), Dev(t2, << d2 >>) >>, <<>>, FALSE) :
        t1 \in {x \in DevTargets : x.p = << Q("a","ld") >>}, t2 \in {x \in DevTargets : x.k \in {"leafd", "container"}},
        d1 \in {Dv("delete", << S1("default", "dv") >>), Dv("add", << Cfg("false") >>), Dv("not-supported", <<>>)},
